@@ -478,9 +478,26 @@ class Engine:
         vq = getattr(self, "verifying", None) or fr.qname
         name = f"{short(vq)}:{kind}:{label}" if label else f"{short(vq)}:{kind}"
         if tags is None:
-            c = self.spec.fns.get(vq)
-            tags = tuple(c.owners) if c is not None else ()
+            tags = self.function_tags(vq)
         self.obligations.append(Obligation(name, list(st.pc), goal, kind, vq, info, expect, tuple(tags)))
+
+    def function_tags(self, q):
+        """tags of an obligation without its own label: the function's owners plus every property that has a
+        labelled clause in this function (its proof rests on the function's unlabelled obligations too)"""
+        cache = self.__dict__.setdefault("_ftags", {})
+        if q not in cache:
+            from .spec import split_tags
+            c = self.spec.fns.get(q)
+            tags = set()
+            if c is not None:
+                tags.update(c.owners)
+                texts = list(c.ensures) + [i for l in c.loops.values() for i in l.inv] + [x for v in c.raises.values() for x in v]
+                if c.gen:
+                    texts += [p for _l, p in c.gen.get("step_post", [])] + [x for v in c.gen.get("yield_inv", {}).values() for x in v]
+                for t in texts:
+                    tags.update(split_tags(t)[0] or ())
+            cache[q] = tuple(sorted(tags))
+        return cache[q]
 
     def raise_edge(self, fr: Frame, st: State, cond, exc: str, where: str):
         """Fork an exceptional edge taken when `cond` holds; the normal path continues with not cond."""
